@@ -307,21 +307,28 @@ def rule_alignment(ck, rid="C17.S2"):
         f = repo.fn(q)
         fl = flow_of(f)
         check_units(ck, rid, f, UNITS[q])
-        cs = [(n, c) for n, c in calls_in(fl, callee) if "signals" in canon(c.func.value)]
+        cs = [(n, c) for n, c in calls_in(fl, callee) if isinstance(c.func, ast.Attribute) and "signals" in canon(fl.expand(c.func.value, n))]
         ck.require(len(cs) == 1, rid, f, cs[0][1] if cs else callee, bad=f"call to tariff.{callee} not found", sink=f"{q}-call")
         if len(cs) != 1:
             continue
         n, c = cs[0]
         start_p = f.params[-1]
-        a0 = canon(fl.expand(c.args[0], n)) if c.args else ""
-        alts = {f"self._simulator.start + timedelta(minutes=self.period) * {x}" for x in (start_p, f"__phi__({start_p}, self.current_time)", f"__phi__(self.current_time, {start_p})")} | \
-            {f"self._simulator.start + {x} * timedelta(minutes=self.period)" for x in (start_p, f"__phi__({start_p}, self.current_time)", f"__phi__(self.current_time, {start_p})")}
-        ck.require(a0 in alts, rid, f, c, ok="prices start at sim.start + period x (given step, default: current step)",
-                   bad=f"the price vector must start at sim.start + timedelta(minutes=period) * start; got {a0}", sink=f"{q}-start")
-        # default start = current time on the `start is None` edge
-        dflt = [(nn, how) for nn in fl.cfg.nodes for nm, how in fl._defs.get(nn, {}).items() if nm == start_p and how[0] == "assign"]
-        ok = len(dflt) == 1 and canon(dflt[0][1][1]) == "self.current_time" and any((cc := cmp_norm(a, t)) and canon(cc[0]) == start_p and cc[1] == "is" for a, t in facts_at(fl, dflt[0][0]))
-        ck.require(ok, rid, f, dflt[0][0].stmt if dflt else "start = self.current_time", ok="default start is the current period", bad="a missing start must default to the current period", sink=f"{q}-default")
+        # start instant, specialised on whether `start` was given: gated expansion keeps the `start is None` test
+        fl.gated = True
+        try:
+            a0x = fl.expand(c.args[0], n) if c.args else None
+        finally:
+            fl.gated = False
+        from ..rules import specialise, alts_deep
+
+        def forms(x):
+            return {f"self._simulator.start + timedelta(minutes=self.period) * {x}", f"self._simulator.start + {x} * timedelta(minutes=self.period)"}
+        given = {canon(a_) for a_ in alts_deep(specialise(a0x, {f"{start_p} is None": False, f"{start_p} is not None": True}))} if a0x is not None else set()
+        missing = {canon(a_) for a_ in alts_deep(specialise(a0x, {f"{start_p} is None": True, f"{start_p} is not None": False}))} if a0x is not None else set()
+        ck.require(bool(given) and given <= forms(start_p), rid, f, c, ok="a given start step is used as given: prices start at sim.start + period x start",
+                   bad=f"with an explicit start the price vector starts at {sorted(given)}; it must be sim.start + timedelta(minutes=period) * start (start=0 included)", sink=f"{q}-start")
+        ck.require(bool(missing) and missing <= forms("self.current_time"), rid, f, c, ok="default start is the current period", bad=f"without a start the price vector starts at {sorted(missing)}; "
+                   f"it must default to the current period", sink=f"{q}-default")
         if extra:
             ok = len(c.args) == 3 and canon(fl.expand(c.args[1], n)) == f.params[1] and canon(fl.expand(c.args[2], n)) == "self.period"
             ck.require(ok, rid, f, c, ok="(start, length, period) passed on", bad="get_tariffs must receive (price_start, length, self.period)", sink=f"{q}-args")
@@ -331,19 +338,27 @@ def rule_alignment(ck, rid="C17.S2"):
 
 def rule_tariff_choice(ck, rid="C17.S2"):
     """energy_cost / demand_charge price with the tariff that was passed; the simulator's own tariff signal is only the default."""
-    from .c06 import _default_only_on_none
+    from ..rules import specialise, alts_deep
     repo = ck.repo
     for q, meth in (("energy_cost", "get_tariffs"), ("demand_charge", "get_demand_charge")):
         f = repo.fn(q)
         fl = flow_of(f)
         p = f.params[1]
-        _default_only_on_none(ck, f, fl, p, (f"{f.params[0]}.signals['tariff']", f'{f.params[0]}.signals["tariff"]'), q)
+        sim = f.params[0]
         calls = [(n, c) for n, c in calls_in(fl, meth)]
         ck.require(len(calls) == 1, rid, f, calls[0][1] if calls else meth, bad=f"{len(calls)} {meth} call sites in {q}", sink=f"{q}:tariff-call")
         for n, c in calls:
-            recv = c.func.value
-            ck.require(dotted(recv) == p, rid, f, c, ok=f"priced with the `{p}` argument (defaulted from the simulator's signal only when None)",
-                       bad=f"{q} prices with `{src(recv, 40)}`, not with the tariff argument", sink=f"{q}:tariff-receiver")
+            fl.gated = True
+            try:
+                recv = fl.expand(c.func.value, n)
+            finally:
+                fl.gated = False
+            given = {canon(a_) for a_ in alts_deep(specialise(recv, {f"{p} is None": False, f"{p} is not None": True}))}
+            missing = {canon(a_) for a_ in alts_deep(specialise(recv, {f"{p} is None": True, f"{p} is not None": False}))}
+            ck.require(given == {p}, rid, f, c, ok=f"a tariff passed by the caller is the one used",
+                       bad=f"with an explicit tariff argument {q} prices with {sorted(given)}: the argument is ignored or only used as a fallback", sink=f"{q}:tariff-receiver")
+            ck.require(bool(missing) and all("signals['tariff']" in m and m.startswith(sim) for m in missing), rid, f, c, ok="without an argument the simulator's own tariff signal is used",
+                       bad=f"without a tariff argument {q} prices with {sorted(missing)}", sink=f"{q}:tariff-default")
 
 
 def run(ck):
